@@ -469,7 +469,41 @@ def run_options(r, iface0):
                         for kind, text in judge(res, None, size, specs, honoured, method, data):
                             r.violation(f"options:{kind}:{iface0}", {"options": vname, "iface": iface0, "method": method, "range": header, "if_range": ifr},
                                         f"{iface0} FileResponse variant {vname}, {method} Range={header!r} If-Range={ifr!r} (announced ETag {et!r}): {text}")
-        r.sample({"options": list(variants), "iface": iface0})
+        # a file that was empty when it was stat'ed and holds bytes by the time it is served: the announced length is 0
+        born = os.path.join(t.dir, "born-empty.log")
+        open(born, "wb").close()
+        empty_stat = os.stat(born)
+        with open(born, "ab") as f:
+            f.write(b"WRITTEN-LATER!")
+        os.utime(born, (empty_stat.st_atime, empty_stat.st_mtime))
+        for vname, kw in (("empty-at-stat", {"chunk_size": 4}), ("empty-at-stat-default-chunk", {})):
+            for header, specs in ((None, None), ("bytes=0-", [("f", 0)]), ("bytes=-3", [("s", 3)]), ("bytes=0-1,5-8", [("fl", 0, 1), ("fl", 5, 8)])):
+                for method in ("GET", "HEAD"):
+                    req = SV.AReq(method=method, headers=[("Range", header)] if header else [])
+                    app = m.FileResponse(born, stat_result=empty_stat, **kw)
+                    res = SV.run_wsgi(app, SV.to_environ(req)) if iface == "wsgi" else SV.run_asgi(app, SV.to_scope(req, extensions=ext) if ext else SV.to_scope(req), SV.to_messages(req))
+                    r.count("evaluations")
+                    r.count("distinct_nontrivial")
+                    for kind, text in judge(res, None, 0, specs, True, method, b""):
+                        r.violation(f"options:{kind}:{iface0}", {"options": vname, "iface": iface0, "method": method, "range": header, "if_range": None},
+                                    f"{iface0} FileResponse variant {vname} (stat_result of 0 bytes, 14 bytes on disk), {method} Range={header!r}: {text}")
+        # chunk sizes beyond a mebibyte on a file of three: every byte announced is sent, whole, as one range, as several
+        big = os.path.join(t.dir, "big.bin")
+        bigdata = bytes(range(256)) * (3 * 4096) + b"TAILEND"
+        with open(big, "wb") as f:
+            f.write(bigdata)
+        for chunk in (2 * 1024 * 1024, 1024 * 1024 + 1, 4 * 1024 * 1024):
+            for header, specs in ((None, None), ("bytes=5-3000000", [("fl", 5, 3000000)]), ("bytes=0-1500000,1600000-", [("fl", 0, 1500000), ("f", 1600000)])):
+                req = SV.AReq(method="GET", headers=[("Range", header)] if header else [])
+                app = m.FileResponse(big, chunk_size=chunk)
+                random.seed(12345)
+                res = SV.run_wsgi(app, SV.to_environ(req)) if iface == "wsgi" else SV.run_asgi(app, SV.to_scope(req, extensions=ext) if ext else SV.to_scope(req), SV.to_messages(req))
+                r.count("evaluations")
+                r.count("distinct_nontrivial")
+                for kind, text in judge(res, None, len(bigdata), specs, True, "GET", bigdata):
+                    r.violation(f"options:{kind}:{iface0}", {"options": "big-chunks", "iface": iface0, "method": "GET", "range": header, "if_range": None, "chunk": chunk},
+                                f"{iface0} FileResponse of a {len(bigdata)}-byte file with chunk_size={chunk}, GET Range={header!r}: {text}")
+        r.sample({"options": list(variants) + ["empty-at-stat", "big-chunks"], "iface": iface0})
     finally:
         t.close()
 
